@@ -292,12 +292,14 @@ func readonlyBatch(r *vh.Run, i int) {
 		var anyD, anyTag string
 		if f.w != nil && f.w.Repos[rp] != nil {
 			for d := range f.w.Repos[rp].Stored {
-				anyD = d
-				break
+				if anyD == "" || d < anyD {
+					anyD = d
+				}
 			}
 			for t := range f.w.Repos[rp].Tags {
-				anyTag = t
-				break
+				if anyTag == "" || t < anyTag {
+					anyTag = t
+				}
 			}
 		}
 		if f.legacy != nil && len(f.legacy.All) > 0 {
